@@ -11,7 +11,7 @@ HARNESSES = [
 ]
 ENCODED = ["Number::{cmp, eq} and the usize variants: all 40 representation arms (exact domain "
            "between integers/rationals, lossless, consistent)", "Unifier::unify_fixnum", "Unifier::unify_big_integer", "Unifier::unify_big_rational",
-           "HeapCellValue::order_category", "(index keys: see C06)",
+           "HeapCellValue::order_category", "index keys, index layout and the clause look-ahead (mirsmt/c06.py, shared with C06)",
            "every switch on a Number's representation outside the arithmetic kernels (builtins of "
            "system_calls.rs, machine_state_impl.rs, dispatch.rs, unify.rs, ...): Integer and Fixnum "
            "arms present together"]
@@ -31,17 +31,22 @@ def mpost(results):
     r1 = c05.run()
     r2 = numarms.run(label="C05")
     r3 = c05sites.run()
+    # index keys and the clause look-ahead are where equal integers most easily diverge (shared with C06)
+    from vlib.mirsmt import c06 as m06
+    r4 = m06.run(prop="C05")
     out = dict(r1)
-    out["evaluations"] = sum(r.get("evaluations", 0) for r in (r1, r2, r3))
-    out["distinct_nontrivial"] = sum(r.get("distinct_nontrivial", 0) for r in (r1, r2, r3))
-    out["samples"] = r1.get("samples", []) + r2.get("samples", []) + r3.get("samples", [])
+    out["evaluations"] = sum(r.get("evaluations", 0) for r in (r1, r2, r3, r4))
+    out["distinct_nontrivial"] = sum(r.get("distinct_nontrivial", 0) for r in (r1, r2, r3, r4))
+    out["samples"] = r1.get("samples", []) + r2.get("samples", []) + r3.get("samples", []) + r4.get("samples", [])[:12]
+    if r4.get("known_findings_hit"):
+        out["known_findings_hit"] = r4["known_findings_hit"]
     out["mirsmt_regions"] = r1.get("mirsmt_regions", []) + r3.get("mirsmt_regions", [])
     for k, v in r2.items():
         if k.startswith("numarms"):
             out[k] = v
     if "mirsmt_violations" in r3:
         out.setdefault("mirsmt_violations", []).extend(r3["mirsmt_violations"])
-    ex = [r.get("exit", 0) for r in (r1, r2, r3)]
+    ex = [r.get("exit", 0) for r in (r1, r2, r3, r4)]
     if EXIT_VIOLATION in ex:
         out["exit"] = EXIT_VIOLATION
     elif EXIT_INCONCLUSIVE in ex:
